@@ -416,6 +416,19 @@ def build(tier, rng):
             if not fan.check(same, f"altered-verifies:{info.name}:{kind}:{which}", f"a mutated stored hash with a different {which} still verifies the original password", w):
                 return
             cls = reencoding_class(sm.hash, ms)
+            # independent of the hasher's own parser: one digit of a delimited decimal field (cost, block size, parallelism, ...)
+            # replaced by another digit is a different number, hence a different setting; such a string must not verify
+            if kind == "sub" and len(ms) == len(sm.hash):
+                p = next((i for i in range(len(ms)) if ms[i] != sm.hash[i]), None)
+                if p is not None and ms[p].isdigit() and sm.hash[p].isdigit():
+                    lo, hi, n = p, p + 1, len(ms)
+                    while lo > 0 and sm.hash[lo - 1].isdigit():
+                        lo -= 1
+                    while hi < n and sm.hash[hi].isdigit():
+                        hi += 1
+                    if (lo == 0 or sm.hash[lo - 1] in "=$,") and hi < n and sm.hash[hi] in "$,":
+                        fan.fail(f"altered-verifies:{info.name}:number-changed", "a stored hash with one digit of a numeric setting changed still verifies the original password (the parser fell back to another value?)", w)
+                        return
         d = stats["verifying_mutants"].setdefault(info.name, {})
         d[f"{kind}/{cls}"] = d.get(f"{kind}/{cls}", 0) + 1
         if cls != "letter-case":
